@@ -316,3 +316,13 @@ def check(model, rep, tier):
             'a bound method converts to a function taking the instance first: '
             'the instance must be prepended whenever it is not None',
             line=cc.node.lineno, witness='method of a falsy object (empty container)')
+
+  # ---------------------------------------------------------------- dependencies
+  rep.depends('C08', ['ACT-TRAV'],
+              'a parameter the activity analysis does not record as a parameter is '
+              'treated as possibly undefined and overwritten with Undefined(...) '
+              'in front of the first statement that rebinds it: the value bound by '
+              'the call is lost',
+              site_filter=lambda site: (':visit_FunctionDef' in site or
+                                        ':visit_Lambda' in site or ':visit_arg' in site)
+              and ('field(' not in site or 'field(args' in site))
